@@ -91,6 +91,17 @@ CHECKS["C13"] = dict(
     technique="Coq proof (type soundness of the execution model) + extraction-based checker correspondence + error-attribution search",
     design="4/C13")
 
+CHECKS["C05"] = dict(
+    text="Coq: validator meaning (ids never reused, each announced before completed, completed at most/exactly once, hasNext true except last), stream-queue order law, termination exactly once and publisher+protocol for every node-level well-formed event trace are proved over all traces; enabled->valid(publish(run)) and the graph invariant are proved by induction for flat work (no nested work) under an executable initial-state hypothesis; for nested work they are established by exhaustive exploration inside Coq on an explicit family of 49 graphs (all sequences <=5; all sequences for 39) and by the extracted explorer on generated graphs. The real WorkQueue/IncrementalPublisher/StreamItemQueue are tied to the model by driving them in a real event loop on generated graphs x event orders; end-to-end @defer/@stream payload streams under explored schedules are checked by the extracted and an independent Python validator (targets applied in order, every target and announced path must exist)",
+    note="core theorem is _partial: flat fragment + init_ok hypothesis; nested work bounded/exhaustive only; data existence only in the Python validator (abstracted in Coq to the creation-order rule); asyncio pacing abstracted to one graph event per settled future; sync-completing tasks only end to end",
+    technique="Coq proof (induction over traces + in-Coq exhaustive exploration by vm_compute on a stated finite family) + extraction-based correspondence with the real scheduler + protocol validator on real payload streams",
+    design="4/C05")
+CHECKS["C06"] = dict(
+    text="Stopping early never hangs or leaks: bookkeeping machines (Computation, StreamItemQueue control incl. bounded queue/parked producer, cancel walk, work-finished hook, aclosing) are proved to run/close/fire at most and exactly once on all event traces; real requests are stopped at every quiescent point (aclose, abort, resolver/source failure, early execution on/off) and checked for caller release, no pending task, every started source closed once, hook once and only after the work settled; recorded traces are accepted by the extracted machines; bounded-exhaustive direct drives of Computation/StreamItemQueue/map_async_iterable",
+    note="proof for the bookkeeping machines (3 StreamItemQueue theorems _partial: no swallowed-cancellation producer, no batching, macro steps); exploration only for runtime quiescence/promptness (all_tasks after 40-160 drain iterations, 2 s wait_for); F1 (aclose before the first anext) is a known unrepaired finding printed as KNOWN-FINDING; background-settled work tolerated after a stop only if reachable from Executor.background_futures",
+    technique="Coq proof (control machines over all event traces) + extraction-based trace acceptance and direct drives + leak predicates on real runs in fresh event loops",
+    design="4/C06")
+
 NOT_YET = {}
 
 
